@@ -38,7 +38,8 @@ MOD = "harness.c05"
 
 SEND_CORE = [{"t": "A"}, {"t": "5"}, {"t": "D"}, {"t": "0"}, {"t": "1"}]
 SEND_FULL = SEND_CORE + [{"t": "2"}, {"t": "8"}, {"t": "4", "seq": "nout"}, {"t": "4", "seq": "below"}, {"t": "4", "seq": "above"},
-                         {"t": "4", "seq": "missing"}, {"t": "D", "pd": True, "seq": "below"}, {"t": "D", "pd": True, "seq": "nout"},
+                         {"t": "4", "seq": "missing"}, {"t": "4", "seq": "nout", "plain": True}, {"t": "4", "seq": "below", "plain": True},
+                         {"t": "4", "seq": "above", "plain": True}, {"t": "D", "pd": True, "seq": "below"}, {"t": "D", "pd": True, "seq": "nout"},
                          {"t": "D", "pd": True, "seq": "missing"}, {"t": "D", "stale": "34", "seq": "below"},
                          {"t": "D", "stale": "N", "seq": "below"}, {"t": "D", "stale": "N", "seq": "above"}]
 IN_CORE = [{"cls": "logon", "rel": "at"}, {"cls": "app", "rel": "at"}, {"cls": "app", "rel": "plus1"}, {"cls": "tr", "rel": "at"},
